@@ -9,6 +9,8 @@ Inductive event :=
 | RUnlock                            (* recv.mtx.RUnlock() *)
 | ReadField (f : string)             (* recv.f, or memory reached through it, is read *)
 | WriteField (f : string)            (* recv.f, or memory reached through it, is written *)
+| UseArg (a : string)                (* a parameter of reference type is mentioned: memory the caller may share with
+                                       other goroutines (a *bchutil.Tx with its unsynchronised hash memo, a []byte) *)
 | CallWorker (w : string)            (* recv.w(..): method of the same type on the same receiver *)
 | PassField (f callee : string)      (* a reference into recv.f handed to someone else *)
 | PassRecv (callee : string)         (* the receiver itself handed on *)
